@@ -208,3 +208,99 @@ def link_rates(ops):
 
 def link_channels(ops):
     return [int(o.split(" ")[1]) for o in ops if o.startswith("link ")]
+
+
+# ---- hand-made links: any legal set-up, silent audio packets --------------------------------------
+def raw_link(rng, serial, channels, rate, b0, b1, npackets, trim=None, flush_p=0.2, big=False, tries=40):
+    """ops building a link from a generated set-up header (checks/gen_setup.py) and audio packets that
+    select a random mode and carry nothing else (every floor reads 'unused': silence).  Granule positions
+    follow the specification.  Returns (ops, samples, info) — the harness may still refuse the set-up
+    (e.g. an over-subscribed Huffman tree); callers look at the open result."""
+    from . import gen_setup as G
+    t, meta = G.gen_setup(rng, channels, 1 << b0, 1 << b1, big=big)
+    flags = [f[0] for f in t.f if f[2] == "mode.bf"]
+    nm = len(flags)
+    mb = G.ilog(nm - 1)
+    ops = ["rawbegin %d %s %s %s" % (serial, vlib.hexs(G.ident(channels, rate, b0, b1)), vlib.hexs(G.comment()), vlib.hexs(t.pack()))]
+    pos, prev = 0, None
+    sizes = []
+    for k in range(npackets):
+        m = rng.randrange(nm)
+        bs = (1 << b1) if flags[m] else (1 << b0)
+        bits, nb = 0, 1
+        bits |= m << nb
+        nb += mb
+        if flags[m]:
+            bits |= rng.getrandbits(2) << nb
+            nb += 2
+        body = bits.to_bytes((nb + 7) // 8, "little") + bytes(rng.choice([0, 1, 4, 9]))
+        if prev is not None:
+            pos += (prev + bs) // 4
+        prev = bs
+        sizes.append(bs)
+        last = (k == npackets - 1)
+        gran = pos
+        if last and trim is not None:
+            gran = max(0, pos - trim)
+        ops.append("rawpk %s %d %d %d" % (vlib.hexs(body), gran, 1 if last else 0, 1 if (last or rng.random() < flush_p) else 0))
+    ops.append("rawend")
+    total = pos if trim is None else max(0, pos - trim)
+    return ops, (total if npackets > 0 else 0), {"channels": channels, "rate": rate, "bs0": 1 << b0, "bs1": 1 << b1, "sizes": sizes}
+
+
+def valid_setups(rng, count, combos=None, attempts=6):
+    """set-up headers the decoder accepts *and* can build a decoder for: candidates from the type-directed
+    generator are filtered through the harness (stream c02: three headers + vorbis_synthesis_init).
+    Returns a list of dicts {channels, b0, b1, trace, flags}."""
+    from . import gen_setup as G
+    combos = combos or [(6, 6), (6, 8), (6, 11), (6, 13), (7, 7), (7, 9), (8, 11), (9, 10)]
+    cand = []
+    for i in range(count * attempts):
+        ch = rng.choice([1, 2, 2, 3, 6])
+        b0, b1 = rng.choice(combos)
+        t, meta = G.gen_setup(rng, ch, 1 << b0, 1 << b1)
+        cand.append({"channels": ch, "b0": b0, "b1": b1, "trace": t, "flags": [f[0] for f in t.f if f[2] == "mode.bf"]})
+    cases = []
+    for i, c in enumerate(cand):
+        cases.append(["case %d" % i, "new", "hdr 1 %s" % vlib.hexs(G.ident(c["channels"], 44100, c["b0"], c["b1"])),
+                      "hdr 0 %s" % vlib.hexs(G.comment()), "hdr 0 %s" % vlib.hexs(c["trace"].pack()), "init", "clear"])
+    res = vlib.run_harness_only("c02", cases, timeout=600)
+    good = []
+    for c, r in zip(cand, res):
+        if r["c"] and any(l.startswith("init rc=0") for l in r["c"]):
+            good.append(c)
+    rng.shuffle(good)
+    return good[:count]
+
+
+def raw_link_from(rng, su, serial, rate, npackets, trim=None, flush_p=0.2):
+    """like raw_link, from a pre-validated set-up (valid_setups)"""
+    from . import gen_setup as G
+    flags = su["flags"]
+    nm = len(flags)
+    mb = G.ilog(nm - 1)
+    b0, b1, channels = su["b0"], su["b1"], su["channels"]
+    ops = ["rawbegin %d %s %s %s" % (serial, vlib.hexs(G.ident(channels, rate, b0, b1)), vlib.hexs(G.comment()), vlib.hexs(su["trace"].pack()))]
+    pos, prev = 0, None
+    for k in range(npackets):
+        m = rng.randrange(nm)
+        bs = (1 << b1) if flags[m] else (1 << b0)
+        bits, nb = 0, 1
+        bits |= m << nb
+        nb += mb
+        if flags[m]:
+            bits |= rng.getrandbits(2) << nb
+            nb += 2
+        body = bits.to_bytes((nb + 7) // 8, "little") + bytes(rng.choice([0, 1, 4, 9]))
+        before = pos
+        if prev is not None:
+            pos += (prev + bs) // 4
+        prev = bs
+        last = (k == npackets - 1)
+        if last and trim is not None:
+            trim = min(trim, pos - before)      # the end may be trimmed inside the last block only
+        gran = pos - trim if (last and trim is not None) else pos
+        ops.append("rawpk %s %d %d %d" % (vlib.hexs(body), gran, 1 if last else 0, 1 if (last or rng.random() < flush_p) else 0))
+    ops.append("rawend")
+    total = (pos - trim if trim is not None else pos) if npackets > 0 else 0
+    return ops, total, {"channels": channels, "rate": rate, "bs0": 1 << b0, "bs1": 1 << b1, "serial": serial}
